@@ -428,7 +428,7 @@ func matchKnown(known []knownFinding, prop string, v simkit.Violation) *knownFin
 // confirm writes the replay file and re-executes it in a fresh process.
 func confirm(root, bin, dir, prop string, f simkit.Finding) (string, string) {
 	os.MkdirAll(filepath.Join(root, "replays"), 0o755)
-	path := filepath.Join(root, "replays", fmt.Sprintf("%s-%s-%d.json", prop, sanitize(f.Violation.Rule), f.Plan.Seed))
+	path := filepath.Join(root, "replays", fmt.Sprintf("%s-%s-%s-%d.json", prop, sanitize(f.Violation.Rule), short(sanitize(f.Violation.Class)), f.Plan.Seed))
 	write := func(plan *simkit.Plan, note string) {
 		rf := simkit.ReplayFile{Property: prop, Rule: f.Violation.Rule, Class: f.Violation.Class, Detail: f.Violation.Detail,
 			Engine: plan.Engine, Plan: plan, Journal: f.Journal, JournalHash: f.JournalHash, Note: note}
@@ -598,6 +598,13 @@ func firstLines(s string, n int) string {
 		lines = append(lines[:n], "...")
 	}
 	return strings.Join(lines, "\n  ")
+}
+
+func short(s string) string {
+	if len(s) > 40 {
+		return s[:40]
+	}
+	return s
 }
 
 func sanitize(s string) string {
